@@ -49,6 +49,15 @@ fn byte_at(i: u64) -> u8 {
     (z & 0xff) as u8
 }
 
+/// `write_all` never calls `write` for an empty slice; a zero-length write must reach the writer
+fn put<W: Write>(w: &mut W, chunk: &[u8]) -> std::io::Result<()> {
+    if chunk.is_empty() {
+        w.write(chunk).map(|_| ())
+    } else {
+        w.write_all(chunk)
+    }
+}
+
 fn stream(sizes: &[u32]) -> Vec<Vec<u8>> {
     let mut off = 0u64;
     sizes
@@ -119,10 +128,7 @@ fn run_seq(inmemory: bool, sizes: &[u32], program: Program, prefix: u16) -> Resu
                     }
                 }
                 if step < n {
-                    writer
-                        .as_mut()
-                        .unwrap()
-                        .write_all(&chunks[step])
+                    put(writer.as_mut().unwrap(), &chunks[step])
                         .map_err(|e| format!("{}: write failed: {}", what, e))?;
                     ready(&buf, false, "after a write, before the drop")?;
                 } else if step == n {
@@ -136,7 +142,7 @@ fn run_seq(inmemory: bool, sizes: &[u32], program: Program, prefix: u16) -> Resu
         }
         Program::ClosedWrite | Program::LenThenClosedWrite => {
             for c in &chunks {
-                writer.write_all(c).map_err(|e| format!("{}: write failed: {}", what, e))?;
+                put(&mut writer, c).map_err(|e| format!("{}: write failed: {}", what, e))?;
                 ready(&buf, false, "after a write, before the drop")?;
             }
             drop(writer);
@@ -205,7 +211,7 @@ fn run_threaded(
     let pchunks = chunks.clone();
     let producer = std::thread::spawn(move || -> Result<(), String> {
         for c in &pchunks {
-            writer.write_all(c).map_err(|e| format!("write failed: {}", e))?;
+            put(&mut writer, c).map_err(|e| format!("write failed: {}", e))?;
         }
         drop(writer);
         Ok(())
